@@ -444,6 +444,22 @@ def rule_r7_simple(ck, prog, rule='C13.R7', cls='sdk::logs::SimpleLogRecordProce
     ck.verdict(ok, rule, f, 'every-record-exported', ex[0].n, 'every path through %s calls the exporter\'s Export (except after shutdown)' % method if ok else
                '%s can return without handing the record to the exporter (try-lock / early return): a record emitted while another thread is exporting is dropped' % method,
                path=None if ok else g.describe_path(g.path(g.entry, g.exit, avoid=ex, avoid_edges=after_shutdown) or []))
+    # what is handed over is the record itself: a view of exactly one element that starts at the parameter
+    par = f.params[0]
+    for ep in ex:
+        srcs = [(sf, sn) for a in ep.n.get('args', []) if a is not None and a >= 0 for (sf, sn, sc) in origins(g, rd, ep.f, a, ep.ctx)]
+        spans = [(sf, sn) for (sf, sn) in srcs if sn['k'] == 'construct' and 'span<' in (sn.get('c') or '') and len(sn.get('args', [])) == 2]
+        if not spans:
+            ck.inconclusive(rule, f, 'one-element-view-of-the-record', ep.n, 'the view handed to Export is not built as span(pointer, count) in %s' % method)
+            continue
+        for (sf, sn) in spans:
+            a0, a1 = strip_casts(sf, sn['args'][0]), strip_casts(sf, sn['args'][1])
+            at_param = a0['k'] == 'unop' and a0.get('op') == '&' and strip_casts(sf, a0['e']).get('id') == par['id']
+            one = a1.get('v') == 1
+            ok2 = at_param and one
+            ck.verdict(ok2, rule, sf, 'one-element-view-of-the-record', sn, 'Export receives span(&record, 1)' if ok2 else
+                       ('the view handed to Export has %s elements instead of one: the record is not exported (or the exporter reads past it)' % a1.get('v', '?') if at_param else
+                        'the view handed to Export does not start at the record that was passed in'))
 
 
 def rule_r1_exposure(ck, prog, rule='C13.R1'):
